@@ -694,4 +694,31 @@ theorem Doc.not_hasSet_nodes {s : Nat} {d : Doc} (h : d.hasSet s = false) :
   intro x hx; simpa using h x hx
 
 
+/-! ## `Doc.updSet`: idempotence and commutation -/
+
+theorem Doc.updSet_idem (sid : Nat) (f : Node → Node)
+    (hf : ∀ vs o m r, (f (.set sid vs o m r)).setSid? = some sid)
+    (hff : ∀ vs o m r, f (f (.set sid vs o m r)) = f (.set sid vs o m r)) (d : Doc) :
+    (d.updSet sid f).updSet sid f = d.updSet sid f := by
+  rw [Doc.updSet_eq_mapNodes, Doc.updSet_eq_mapNodes, Doc.mapNodes_mapNodes]
+  exact Doc.mapNodes_congr _ _ d (fun x _ => Nima.updSet_idem sid f hf hff x)
+
+theorem Doc.updSet_comm (s t : Nat) (f g : Node → Node) (hst : s ≠ t)
+    (hf : ∀ vs o m r, f (Node.updSet t g (.set s vs o m r)) = Node.updSet t g (f (.set s vs o m r)))
+    (hg : ∀ vs o m r, g (Node.updSet s f (.set t vs o m r)) = Node.updSet s f (g (.set t vs o m r)))
+    (d : Doc) :
+    (d.updSet t g).updSet s f = (d.updSet s f).updSet t g := by
+  rw [Doc.updSet_eq_mapNodes, Doc.updSet_eq_mapNodes, Doc.updSet_eq_mapNodes, Doc.updSet_eq_mapNodes,
+    Doc.mapNodes_mapNodes, Doc.mapNodes_mapNodes]
+  exact Doc.mapNodes_congr _ _ d (fun x _ => Nima.updSet_comm s t f g hst hf hg x)
+
+theorem hasBindL_of_mem {j : Nat} {l : List Node} {x : Node} (hx : x ∈ l) (h : Node.hasBind j x = true) :
+    hasBindL j l = true := by
+  rw [hasBindL_eq_any, List.any_eq_true]; exact ⟨x, hx, h⟩
+
+theorem Doc.hasBind_with_target (j : Nat) (d : Doc) (t : Node) :
+    ({ d with target := t } : Doc).hasBind j =
+      (Node.hasBind j t || ({ d with target := .atom [] } : Doc).hasBind j) := by
+  simp [Doc.hasBind, Node.hasBind, Bool.or_assoc]
+
 end Nima
